@@ -568,7 +568,7 @@ func TestCheck(t *testing.T) {
 		}
 	}
 
-	cfg.SetRapid(cfg.N(150, 2500), 1)
+	cfg.SetRapid(cfg.N(400, 3000), 1)
 	rapid.Check(t, func(rt *rapid.T) {
 		c := Case{Format: rapid.SampledFrom([]string{"par2", "par1"}).Draw(rt, "format"), Op: rapid.SampledFrom([]string{"create", "verify", "repair", "repair"}).Draw(rt, "op")}
 		if c.Format == "par2" {
